@@ -16,18 +16,18 @@ PROPS = {
                                       'vpn/session/10', 'vpn/session/11', 'events'], result_ops=['begin', 'end', 'tx:subCancel', 'tx:sessEnd', 'tx:nodeStatus'],
              monitors=['deadlinesFuture', 'lifecycle']),
  'C05': dict(level='proof', sections=['bank', 'vpn/subscription/10', 'vpn/subscription/30', 'vpn/deposit', 'events'], result_ops=['tx:nodeSubscribe', 'tx:planSubscribe'],
-             monitors=['subShape'], uses_generated=True),
+             monitors=['escrowSplit'], uses_generated=True),
  'C06': dict(level='proof', sections=['vpn/subscription/20', 'vpn/subscription/12'], result_ops=['tx:subAllocate', 'tx:sessStart'], monitors=['allocBounds', 'quotaConserved']),
  'C07': dict(level='proof', sections=None, result_ops=['*'], monitors=[]),
  'C08': dict(level='proof', sections=[], result_ops=['tx'], monitors=[]),
- 'C09': dict(level='proof', sections=IDX, result_ops=['query'], monitors=['indices', 'queues'], uses_generated=True),
+ 'C09': dict(level='proof', sections=IDX, result_ops=['query'], monitors=['nodeIdx', 'sessIdx', 'subIdx', 'partitions', 'wellFormed'], uses_generated=True),
  'C10': dict(level='proof', sections=None, result_ops=['*'], monitors=[], uses_generated=True, determinism=True,
              partial='runtime half (goroutine scheduling, map seeds) is differential only: re-executions compared byte for byte incl. app hash'),
  'C11': dict(level='proof', sections=['vpn/node/10', 'param'], result_ops=['tx:nodeRegister', 'tx:nodeUpdate', 'tx:nodeSubscribe', 'gov'], monitors=['prices']),
  'C12': dict(level='proof', sections=None, result_ops=['export', 'reimport'], monitors=[], roundtrip=True,
              partial='subscriptions/allocations/payouts/counters are not exported (F5), the session counter is rebuilt from live ids (F9), small swaps invalidate the export (F4): known findings; roundtrip_partial covers the surviving tables'),
  'C13': dict(level='proof', sections=[], result_ops=['query'], monitors=[], uses_generated=True, probe=True),
- 'C14': dict(level='proof', sections=['swap', 'bank', 'supply'], result_ops=['tx:swap'], monitors=['swapLedger'], uses_generated=True),
+ 'C14': dict(level='proof', sections=['swap', 'bank', 'supply'], result_ops=['tx:swap'], monitors=['swaps', 'supply'], uses_generated=True),
  'C15': dict(level='proof', sections=['custommint', 'sdkmint', 'events'], result_ops=['mintprobe', 'begin'], monitors=[]),
  'C16': dict(level='proof', sections=[], result_ops=[], monitors=[], probe=True, uses_generated=True),
  'C17': dict(level='proof', sections=[], result_ops=[], monitors=[], probe=True, uses_generated=True),
